@@ -243,7 +243,7 @@ func execC20(seg []Ev) []Ev {
 				v := h.slots[toInt(in["v"])]
 				if i := toInt(in["i"]); v.Type() == variants.Array && i >= 0 && i < v.Length() {
 					if el := v.GetByIndex(i); el != nil {
-						if _, named := h.names[el]; !named {
+						if id := h.elemID(el); id == "nul" || id == "other" { // (only a growth element; never one of the caller's, nor a copy of one)
 							el.SetAsInteger(7)
 						}
 					}
